@@ -252,8 +252,8 @@ Lemma resm_ext m m' x : ext tm m m' -> resm m x -> resm m' x.
 Proof.
   intros He H. unfold resm in *. destruct (mget m x) as [v|] eqn:Hg; [|contradiction].
   destruct (proj2 He x v Hg) as (v' & Hg' & Hr). rewrite Hg'.
-  assert (Hk : forall ty ty', healed m tm ty <> None -> (ty' = ty \/ reg m' tm (unwrap ty')) -> healed m' tm ty' <> None).
-  { intros ty ty' Hh [->|Hreg]; [|apply reg_healed; assumption].
+  assert (Hk : forall ty ty', healed m tm ty <> None -> (ty' = ty \/ rkept tm m' ty ty') -> healed m' tm ty' <> None).
+  { intros ty ty' Hh [->|[Hreg _]]; [|apply reg_healed; assumption].
     destruct (healed m tm ty) as [y|] eqn:E; [|congruence]. rewrite (healed_ext m m' ty y He E). discriminate. }
   destruct v, v'; simpl in Hr; try contradiction; auto.
   - destruct Hr as (_ & Hr & _). eapply Hk; eauto.
@@ -571,6 +571,79 @@ Proof.
   destruct k; auto.
 Qed.
 
+(* the type references of the clone: each member of the clone refers to a type
+   registered in the clone's registry, with the wrappers and under the name of
+   the type its source refers to (or to the very same object: the specified
+   scalars are shared); the interfaces / union members likewise, in order *)
+Definition tyl (tm : list (str * oid)) (m : mem) (v v' : obj) : Prop :=
+  match v, v' with
+  | OField _ _ ty _ _ _ _ _ _, OField _ _ ty' _ _ _ _ _ _ => ty' = ty \/ rkept tm m ty ty'
+  | OInput _ _ _ ty _ _ _, OInput _ _ _ ty' _ _ _ => ty' = ty \/ rkept tm m ty ty'
+  | _, _ => True
+  end.
+Definition olink tm (m : mem) (x x' : oid) : Prop :=
+  exists v v', mget m x = Some v /\ mget m x' = Some v' /\ tyl tm m v v'.
+Definition mlink tm (m : mem) (x x' : oid) : Prop :=
+  olink tm m x x' /\ Forall2 (olink tm m) (oargs m x) (oargs m x').
+Definition type_linked tm (m : mem) (t t' : oid) : Prop :=
+  exists n k d ms ifs r ds n' k' d' ms' ifs' r' ds',
+    mget m t = Some (OType n k d ms ifs r ds) /\
+    mget m t' = Some (OType n' k' d' ms' ifs' r' ds') /\
+    (ifs' = ifs \/ ikept tm m ifs ifs') /\
+    match k with
+    | Kobject | Kinterface | Kinput | Kenum => Forall2 (mlink tm m) ms ms'
+    | _ => True
+    end.
+
+Lemma heal_rel_tyl tm m v v' : heal_rel tm m v v' -> tyl tm m v v'.
+Proof.
+  intros Hr. destruct v, v'; simpl in Hr; try contradiction; simpl; auto.
+  - exact (proj1 (proj2 Hr)).
+  - exact (proj1 Hr).
+Qed.
+
+Lemma vcopy_olink tm m2 mf (S : oid -> Prop) a a' :
+  ext tm m2 mf -> (forall x, S x -> mget mf x = mget m2 x) -> S a -> vcopy m2 a a' -> olink tm mf a a'.
+Proof.
+  intros He HS Sa (v & Hv & Hv' & Hleaf).
+  destruct (proj2 He a' v Hv') as (v'' & Hg'' & Hr).
+  exists v, v''. split; [rewrite (HS a Sa); exact Hv|]. split; [assumption|apply heal_rel_tyl; assumption].
+Qed.
+
+Lemma tcopy_linked tm m2 mf (S : oid -> Prop) n t t' :
+  ext tm m2 mf -> (forall x, S x -> mget mf x = mget m2 x) ->
+  S t -> (forall k d ms ifs r ds, mget m2 t = Some (OType n k d ms ifs r ds) ->
+            forall x, In x ms -> S x /\ forall a, In a (oargs m2 x) -> S a) ->
+  tcopy m2 n t t' -> type_linked tm mf t t'.
+Proof.
+  intros He HS St Hmem (k & d & ms & ifs & r & ds & ms' & Ht & Ht' & Hc).
+  destruct (proj2 He t' _ Ht') as (v'' & Hg'' & Hr).
+  destruct v'' as [n2 k2 d2 ms2 ifs2 r2 ds2| | | |]; simpl in Hr; try contradiction.
+  destruct Hr as (-> & -> & -> & Hifs & -> & -> & ->).
+  exists n, k, d, ms, ifs, r, ds, n, k, d, ms', ifs2, r, ds.
+  split; [rewrite (HS t St); exact Ht|]. split; [exact Hg''|]. split; [exact Hifs|].
+  pose proof (Hmem _ _ _ _ _ _ Ht) as Hm.
+  assert (Hleafs : Forall2 (vcopy m2) ms ms' -> Forall2 (mlink tm mf) ms ms').
+  { apply Forall2_impl_in. intros x x' Hin Hx.
+    destruct (vcopy_xcopy tm m2 mf S x x' He HS (proj1 (Hm x Hin)) Hx) as (_ & B & C).
+    split; [eapply vcopy_olink; eauto; exact (proj1 (Hm x Hin))|]. rewrite B, C. constructor. }
+  assert (Hfields : Forall2 (fcopy m2) ms ms' -> Forall2 (mlink tm mf) ms ms').
+  { apply Forall2_impl_in. intros f f' Hin Hf.
+    destruct Hf as (nf & py & ty & args & args' & df & dp & rf & sb & dsf & Hgf & Hgf' & Hargs).
+    destruct (Hm f Hin) as (Sf & Sargs).
+    destruct (proj2 He f' _ Hgf') as (w & Hw & Hrw).
+    pose proof (heal_rel_tyl _ _ _ _ Hrw) as Hty.
+    destruct w as [|n3 py3 ty3 a3 d3 dp3 r3 sb3 ds3| | |]; simpl in Hrw; try contradiction.
+    destruct Hrw as (-> & _ & -> & -> & -> & -> & -> & -> & ->).
+    assert (Hff : mget mf f = Some (OField nf py ty args df dp rf sb dsf)) by (rewrite (HS f Sf); exact Hgf).
+    split; [exists (OField nf py ty args df dp rf sb dsf), (OField nf py ty3 args' df dp rf sb dsf); auto|].
+    unfold oargs. rewrite Hff, Hw.
+    assert (Sa : forall a, In a args -> S a) by (intros a Ha; apply Sargs; unfold oargs; rewrite Hgf; exact Ha).
+    eapply Forall2_impl_in; [|exact Hargs]. intros a a' Hina Ha.
+    exact (vcopy_olink tm m2 mf S a a' He HS (Sa a Hina) Ha). }
+  destruct k; auto.
+Qed.
+
 Lemma healed_some tm m r n :
   tname m (unwrap r) = Some n -> alookup n tm <> None -> healed m tm r <> None.
 Proof.
@@ -740,9 +813,10 @@ Theorem clone_preserved fuel m s m' s' :
   fresh_ok m -> builtins_ok m -> closed m s -> wf_schema m s -> wf_builtins s ->
   clone fuel m s = Ok (m', s') ->
   (fresh_ok m' /\ wf_reg m' (s_types s') /\
-   forall n o, In (n, o) (s_types s') -> is_builtin o = false -> exists t, In (n, t) (s_types s) /\ is_builtin t = false) /\
+   (forall n o, In (n, o) (s_types s') -> is_builtin o = false -> exists t, In (n, t) (s_types s) /\ is_builtin t = false) /\
+   (forall n o, In (n, o) (s_types s') -> is_builtin o = false -> tres (s_types s') m' o)) /\
   forall n t, In (n, t) (s_types s) -> is_builtin t = false ->
-    exists t', alookup n (s_types s') = Some t' /\ type_cloned m' n t t'.
+    exists t', alookup n (s_types s') = Some t' /\ type_cloned m' n t t' /\ type_linked (s_types s') m' t t'.
 Proof.
   intros Hf Hb Hcl Hwf Hbi H.
   destruct (clone_owned _ _ _ _ _ Hf Hb Hcl Hwf Hbi H) as (Fown & _).
@@ -795,7 +869,7 @@ Proof.
   { intros x Hx. unfold S in Hx. destruct (mget m x) as [v|] eqn:Hv; [|congruence]. apply P12. exact Hv. }
   assert (Hmain : forall mf, ext tm' m2 mf -> (forall x, S x -> mget mf x = mget m2 x) ->
             forall n t, In (n, t) (s_types s) -> is_builtin t = false ->
-              exists t', alookup n tm' = Some t' /\ type_cloned mf n t t').
+              exists t', alookup n tm' = Some t' /\ type_cloned mf n t t' /\ type_linked tm' mf t t').
   { intros mf Hemf HSmf n t Hin Hnb.
     destruct (clone_entries_v n0 _ _ _ _ Hgok Hsrc Hct n t Hin Hnb) as (t' & Htu & Hc1).
     pose proof (tcopy_pres _ _ _ _ _ (g_pres _ _ _ G2) Hc1) as Hc2.
@@ -820,32 +894,34 @@ Proof.
       { intros Hl x Hx. destruct (Hleaf _ Hl x Hx) as (Sx & Ho). split; [assumption|].
         intros a Ha. unfold oargs in Ha, Ho. rewrite (HS2 x Sx) in Ha. rewrite Ho in Ha. destruct Ha. }
       destruct k; auto; subst ms; intros x []. }
-    eapply (tcopy_cloned tm' m2 mf S); [exact Hemf|exact HSmf|exact St|exact Hmem|exact Hc2]. }
+    split; [eapply (tcopy_cloned tm' m2 mf S); [exact Hemf|exact HSmf|exact St|exact Hmem|exact Hc2]|].
+    eapply (tcopy_linked tm' m2 mf S); [exact Hemf|exact HSmf|exact St|exact Hmem|exact Hc2]. }
   pose proof (build_sub _ _ _ _ Hb Hcl Hwf Hbi Hb0) as Hsub0.
   assert (Hback : forall n1 o, In (n1, o) tm' -> is_builtin o = false -> exists t, In (n1, t) (s_types s) /\ is_builtin t = false).
   { intros n1 o Hi1 Hbo.
     destruct (replace_types_in_strict _ _ _ _ _ _ _ _ (proj1 Hwf0) Hrt Hi1) as [Hu|[Ho Hno]].
     - destruct (clone_entries_v' n0 _ _ _ _ Hgok Hsrc Hct n1 o Hu) as (o1 & Hio1 & Hbo1 & _). exists o1. auto.
     - exfalso. destruct (K1 n1 o (Hsub0 _ Ho) Hbo) as (y & Hy). exact (Hno _ Hy). }
+  assert (Hkeys : forall k, In k (map fst (s_types s)) -> alookup k tm' <> None).
+  { intros k Hk. apply in_map_iff in Hk. destruct Hk as ([k1 o1] & <- & Hi1). simpl.
+    eapply replace_types_keeps; [exact N1| |exact Hrt]. rewrite (Hreg0 _ _ Hi1). discriminate. }
+  assert (Htres : forall n1 o, In (n1, o) tm' -> is_builtin o = false -> tres tm' m2 o).
+  { intros n1 o Hi1 Hbo.
+    destruct (replace_types_in_strict _ _ _ _ _ _ _ _ (proj1 Hwf0) Hrt Hi1) as [Hu|[Ho Hno]].
+    - destruct (clone_entries_v' n0 _ _ _ _ Hgok Hsrc Hct n1 o Hu) as (o1 & Hio1 & Hbo1 & Hc).
+      apply (tcopy_pres _ _ _ _ _ (g_pres _ _ _ G2)) in Hc.
+      eapply tcopy_tres; [exact Hc|]. eapply closed_tres; eauto.
+    - exfalso. destruct (K1 n1 o (Hsub0 _ Ho) Hbo) as (y & Hy). exact (Hno _ Hy). }
   destruct b.
   - (* the references of the copies are healed; nothing is dropped *)
-    assert (Hkeys : forall k, In k (map fst (s_types s)) -> alookup k tm' <> None).
-    { intros k Hk. apply in_map_iff in Hk. destruct Hk as ([k1 o1] & <- & Hi1). simpl.
-      eapply replace_types_keeps; [exact N1| |exact Hrt]. rewrite (Hreg0 _ _ Hi1). discriminate. }
-    assert (Htres : forall n1 o, In (n1, o) tm' -> is_builtin o = false -> tres tm' m2 o).
-    { intros n1 o Hi1 Hbo.
-      destruct (replace_types_in_strict _ _ _ _ _ _ _ _ (proj1 Hwf0) Hrt Hi1) as [Hu|[Ho Hno]].
-      - destruct (clone_entries_v' n0 _ _ _ _ Hgok Hsrc Hct n1 o Hu) as (o1 & Hio1 & Hbo1 & Hc).
-        apply (tcopy_pres _ _ _ _ _ (g_pres _ _ _ G2)) in Hc.
-        eapply tcopy_tres; [exact Hc|]. eapply closed_tres; eauto.
-      - exfalso. destruct (K1 n1 o (Hsub0 _ Ho) Hbo) as (y & Hy). exact (Hno _ Hy). }
     match type of H with obind (heal_from fuel m2 ?s1) _ = _ =>
       destruct (heal_from fuel m2 s1) as [[m3 s3]| | |] eqn:Hrec; simpl in H; try discriminate;
       destruct (heal_from_nodrop tm' fuel m2 s1 m3 s3 eq_refl (g_fresh _ _ _ G12) Hwf' Htres Hrec) as (Hreg3 & He3 & Hf3) end.
     inversion H; subst m' s'. simpl. rewrite Hreg3.
-    split; [split; [exact Hf3|split; [eapply wf_reg_ext; eauto|exact Hback]]|].
+    split; [split; [exact Hf3|split; [eapply wf_reg_ext; eauto|split; [exact Hback|]]]|].
+    { intros n1 o Hi1 Hbo. eapply tres_ext; [exact He3|]. apply (Htres n1 o Hi1 Hbo). }
     apply (Hmain m3 He3). intros x Sx. rewrite (HS2 x Sx). unfold S in Sx. destruct (mget m x) as [v|] eqn:Hv; [|congruence].
     rewrite <- Hv. apply (fr_frame _ _ _ Fown). eapply Hex; eauto.
-  - inversion H; subst m' s'. simpl. split; [split; [exact (g_fresh _ _ _ G12)|split; [exact Hwf'|exact Hback]]|].
+  - inversion H; subst m' s'. simpl. split; [split; [exact (g_fresh _ _ _ G12)|split; [exact Hwf'|split; [exact Hback|exact Htres]]]|].
     apply (Hmain m2 (ext_refl tm' m2)). auto.
 Qed.
